@@ -31,6 +31,26 @@ type c07Case struct {
 	Witness string          `json:"witness_input,omitempty"`
 	Rule    string          `json:"reentered_rule,omitempty"`
 	Side    string          `json:"side"` // must_reject | must_accept
+	// Decoy names a rule that the text defines twice: an earlier definition `"a"` that the
+	// later, real one replaces (pigeon accepts repeated names; the last definition is the one
+	// references resolve to, for the analysis as for the generated parser).
+	Decoy string `json:"decoy,omitempty"`
+}
+
+// c07Text prints the grammar, with the decoy definition when one is named.
+func c07Text(g *gspec.Grammar, decoy string, noInit bool) string {
+	if decoy != "" {
+		c := g.Clone()
+		for i, r := range c.Rules {
+			if r.Name == decoy && i > 0 {
+				d := &gspec.Rule{Name: decoy, Expr: gspec.Lit("a")}
+				c.Rules = append(c.Rules[:i:i], append([]*gspec.Rule{d}, c.Rules[i:]...)...)
+				break
+			}
+		}
+		g = c
+	}
+	return gspec.Print(g, gspec.PrintOpts{StubCode: true, NoInit: noInit})
 }
 
 // witnessInputs are tried (besides samples of the grammar) to find a rule that is
@@ -164,7 +184,7 @@ func TestC07(t *testing.T) {
 			continue
 		}
 		sum.Replayed = append(sum.Replayed, f)
-		text := gspec.Print(g, gspec.PrintOpts{StubCode: true})
+		text := c07Text(g, rf.Case.Decoy, false)
 		if k, _, _, _ := checkC07(g, text, rf.Case.Side == "must_reject", rf.Case.Side == "must_accept"); k != "" {
 			sum.ReplayFails = append(sum.ReplayFails, f)
 		}
@@ -175,10 +195,14 @@ func TestC07(t *testing.T) {
 	n := 0
 	rapid.Check(t, func(rt *rapid.T) {
 		g := gspec.LRHuntGen().Draw(rt, "grammar")
-		text := gspec.Print(g, gspec.PrintOpts{StubCode: true})
+		decoy := ""
+		if gspec.U(rt, 7, "decoy") == 0 {
+			decoy = g.Rules[1+gspec.U(rt, len(g.Rules)-1, "decoyrule")].Name
+		}
+		text := c07Text(g, decoy, false)
 		_, cyc := gspec.HasCycle(gspec.FirstOver(g))
 		_, anyCycle := gspec.HasCycle(gspec.RefGraph(g))
-		c := &c07Case{Spec: g.ToJSON(), Text: gspec.Print(g, gspec.PrintOpts{StubCode: true, NoInit: true})}
+		c := &c07Case{Spec: g.ToJSON(), Text: c07Text(g, decoy, true), Decoy: decoy}
 		mustAccept := !cyc
 		mustReject := false
 		if cyc {
@@ -202,6 +226,9 @@ func TestC07(t *testing.T) {
 		}
 		kind, diff, rejected, _ := checkC07(g, text, mustReject, mustAccept)
 		tags := []string{c.Side}
+		if decoy != "" {
+			tags = append(tags, "rule_defined_twice")
+		}
 		if rejected {
 			tags = append(tags, "rejected_as_left_recursive")
 		}
